@@ -73,10 +73,10 @@ package pickle
 //@   mode bv
 //@   requires d != nil
 //@   modifies heap, ipos
-//@   loop 0: step BININT1: when op == 75 ensures ipos[d.r.r] == old(ipos)[d.r.r] + 2 && len(d.stack) == old(len(d.stack)) + 1 && d.stack[old(len(d.stack))] == mkint(conv("int", ibytes[d.r.r][old(ipos)[d.r.r] + 1]))
-//@   loop 0: step BININT2: when op == 77 ensures ipos[d.r.r] == old(ipos)[d.r.r] + 3 && len(d.stack) == old(len(d.stack)) + 1 && d.stack[old(len(d.stack))] == mkint(conv("int", ibytes[d.r.r][old(ipos)[d.r.r] + 1]) | (conv("int", ibytes[d.r.r][old(ipos)[d.r.r] + 2]) << 8))
-//@   loop 0: step BININT: when op == 74 ensures ipos[d.r.r] == old(ipos)[d.r.r] + 5 && len(d.stack) == old(len(d.stack)) + 1 && d.stack[old(len(d.stack))] == mkint(conv("int", conv("int32", le32(ibytes[d.r.r], old(ipos)[d.r.r] + 1))))
-//@   loop 0: step BINFLOAT: when op == 71 ensures ipos[d.r.r] == old(ipos)[d.r.r] + 9 && len(d.stack) == old(len(d.stack)) + 1 && d.stack[old(len(d.stack))] == ifaceas("starlark.Float", f64frombits(le64(ibytes[d.r.r], old(ipos)[d.r.r] + 1)))
+//@   loop over for#1: step BININT1: when op == 75 ensures ipos[d.r.r] == old(ipos)[d.r.r] + 2 && len(d.stack) == old(len(d.stack)) + 1 && d.stack[old(len(d.stack))] == mkint(conv("int", ibytes[d.r.r][old(ipos)[d.r.r] + 1]))
+//@   loop over for#1: step BININT2: when op == 77 ensures ipos[d.r.r] == old(ipos)[d.r.r] + 3 && len(d.stack) == old(len(d.stack)) + 1 && d.stack[old(len(d.stack))] == mkint(conv("int", ibytes[d.r.r][old(ipos)[d.r.r] + 1]) | (conv("int", ibytes[d.r.r][old(ipos)[d.r.r] + 2]) << 8))
+//@   loop over for#1: step BININT: when op == 74 ensures ipos[d.r.r] == old(ipos)[d.r.r] + 5 && len(d.stack) == old(len(d.stack)) + 1 && d.stack[old(len(d.stack))] == mkint(conv("int", conv("int32", le32(ibytes[d.r.r], old(ipos)[d.r.r] + 1))))
+//@   loop over for#1: step BINFLOAT: when op == 71 ensures ipos[d.r.r] == old(ipos)[d.r.r] + 9 && len(d.stack) == old(len(d.stack)) + 1 && d.stack[old(len(d.stack))] == ifaceas("starlark.Float", f64frombits(le64(ibytes[d.r.r], old(ipos)[d.r.r] + 1)))
 
 // ---------------------------------------------------------------- encoder: output stream (bit-vector mode)
 // n = olen[w] is the number of bytes written to the underlying writer so far.
@@ -169,11 +169,11 @@ package pickle
 //@   mode bv
 //@   requires d != nil
 //@   modifies heap, ipos
-//@   loop 0: step SHORT_BINUNICODE: when op == 140 ensures len(d.stack) == old(len(d.stack)) + 1 && istype(d.stack[old(len(d.stack))], "starlark.String") && len(d.stack[old(len(d.stack))].(starlark.String)) == conv("int", ibytes[d.r.r][old(ipos)[d.r.r] + 1]) && ipos[d.r.r] == old(ipos)[d.r.r] + 2 + conv("int", ibytes[d.r.r][old(ipos)[d.r.r] + 1])
-//@   loop 0: step SHORT_BINUNICODE-body: when op == 140 ensures forall i: int :: 0 <= i && i < conv("int", ibytes[d.r.r][old(ipos)[d.r.r] + 1]) ==> d.stack[old(len(d.stack))].(starlark.String)[i] == ibytes[d.r.r][old(ipos)[d.r.r] + 2 + i]
-//@   loop 0: step BINUNICODE: when op == 88 ensures len(d.stack) == old(len(d.stack)) + 1 && istype(d.stack[old(len(d.stack))], "starlark.String") && len(d.stack[old(len(d.stack))].(starlark.String)) == conv("int", le32(ibytes[d.r.r], old(ipos)[d.r.r] + 1)) && ipos[d.r.r] == old(ipos)[d.r.r] + 5 + conv("int", le32(ibytes[d.r.r], old(ipos)[d.r.r] + 1))
-//@   loop 0: step TUPLE-owns-its-elements: when op == 116 ensures len(d.stack) >= 1 && istype(d.stack[len(d.stack) - 1], "starlark.Tuple") && arr(d.stack[len(d.stack) - 1].(starlark.Tuple)) != arr(old(d.stack))
-//@   loop 0: step BINGET: when op == 104 && 0 <= conv("int", ibytes[d.r.r][old(ipos)[d.r.r] + 1]) ensures len(d.stack) == old(len(d.stack)) + 1 && ipos[d.r.r] == old(ipos)[d.r.r] + 2
+//@   loop over for#1: step SHORT_BINUNICODE: when op == 140 ensures len(d.stack) == old(len(d.stack)) + 1 && istype(d.stack[old(len(d.stack))], "starlark.String") && len(d.stack[old(len(d.stack))].(starlark.String)) == conv("int", ibytes[d.r.r][old(ipos)[d.r.r] + 1]) && ipos[d.r.r] == old(ipos)[d.r.r] + 2 + conv("int", ibytes[d.r.r][old(ipos)[d.r.r] + 1])
+//@   loop over for#1: step SHORT_BINUNICODE-body: when op == 140 ensures forall i: int :: 0 <= i && i < conv("int", ibytes[d.r.r][old(ipos)[d.r.r] + 1]) ==> d.stack[old(len(d.stack))].(starlark.String)[i] == ibytes[d.r.r][old(ipos)[d.r.r] + 2 + i]
+//@   loop over for#1: step BINUNICODE: when op == 88 ensures len(d.stack) == old(len(d.stack)) + 1 && istype(d.stack[old(len(d.stack))], "starlark.String") && len(d.stack[old(len(d.stack))].(starlark.String)) == conv("int", le32(ibytes[d.r.r], old(ipos)[d.r.r] + 1)) && ipos[d.r.r] == old(ipos)[d.r.r] + 5 + conv("int", le32(ibytes[d.r.r], old(ipos)[d.r.r] + 1))
+//@   loop over for#1: step TUPLE-owns-its-elements: when op == 116 ensures len(d.stack) >= 1 && istype(d.stack[len(d.stack) - 1], "starlark.Tuple") && arr(d.stack[len(d.stack) - 1].(starlark.Tuple)) != arr(old(d.stack))
+//@   loop over for#1: step BINGET: when op == 104 && 0 <= conv("int", ibytes[d.r.r][old(ipos)[d.r.r] + 1]) ensures len(d.stack) == old(len(d.stack)) + 1 && ipos[d.r.r] == old(ipos)[d.r.r] + 2
 
 // Round trip of every scalar class: the decoder's step applied to the bytes the encoder's
 // postcondition prescribes yields the encoded value (bit-vector lemmas over the two contracts).
@@ -272,9 +272,9 @@ package pickle
 //@   requires memo-nonnil: forall i: int :: 0 <= i && i < len(d.memo) ==> d.memo[i] != nil
 //@   ensures  nonnil: result != nil
 //@   modifies heap, ipos
-//@   loop 0: invariant stack-nonnil: forall i: int :: 0 <= i && i < len(d.stack) ==> d.stack[i] != nil
-//@   loop 0: invariant memo-nonnil: forall i: int :: 0 <= i && i < len(d.memo) ==> d.memo[i] != nil
-//@   loop 0: invariant d != nil
+//@   loop over for#1: invariant stack-nonnil: forall i: int :: 0 <= i && i < len(d.stack) ==> d.stack[i] != nil
+//@   loop over for#1: invariant memo-nonnil: forall i: int :: 0 <= i && i < len(d.memo) ==> d.memo[i] != nil
+//@   loop over for#1: invariant d != nil
 
 //@ ghost n_decode int threadlocal = 0
 //@ ghost decode_failed bool threadlocal = false
@@ -351,12 +351,12 @@ package pickle
 //@   deterministic
 //@   callsite encode: assert memoize-before-descend: comparable(x) ==> (has(e.memo, x) || (has(e.inProgress, x) && !old(has(e.inProgress, x))))
 //@   modifies heap, olen, obytes
-//@   loop 0: invariant e != nil && e.memo != nil && (comparable(x) ==> has(e.memo, x))
-//@   loop 1: invariant e != nil && e.memo != nil && (comparable(x) ==> has(e.memo, x))
-//@   loop 2: invariant e != nil && e.memo != nil && (comparable(x) ==> has(e.memo, x))
-//@   loop 3: invariant e != nil && e.memo != nil && (comparable(x) ==> has(e.memo, x))
-//@   loop 4: invariant e != nil && e.memo != nil && (comparable(x) ==> has(e.memo, x))
-//@   loop 5: invariant e != nil && e.memo != nil && (comparable(x) ==> has(e.memo, x))
+//@   loop over for#1: invariant e != nil && e.memo != nil && (comparable(x) ==> has(e.memo, x))
+//@   loop over batch#1: invariant e != nil && e.memo != nil && (comparable(x) ==> has(e.memo, x))
+//@   loop over for#2: invariant e != nil && e.memo != nil && (comparable(x) ==> has(e.memo, x))
+//@   loop over for#3: invariant e != nil && e.memo != nil && (comparable(x) ==> has(e.memo, x))
+//@   loop over for#4: invariant e != nil && e.memo != nil && (comparable(x) ==> has(e.memo, x))
+//@   loop over batch#2: invariant e != nil && e.memo != nil && (comparable(x) ==> has(e.memo, x))
 //@   loop 6: invariant e != nil && e.memo != nil && (comparable(x) ==> has(e.memo, x))
 
 // ---------------------------------------------------------------- C07: memo ids are positional over a session
